@@ -98,6 +98,14 @@ def install():
 
     SymbolicInt.to_bytes = to_bytes
 
+    # struct.pack('<i', <symbolic bool>) is legal Python (bool is an int)
+    def _bool_to_bytes(self, length=1, byteorder='big', *, signed=False):
+        with NoTracing():
+            as_int = SymbolicInt(z3.If(self.var, z3.IntVal(1), z3.IntVal(0)))
+        return to_bytes(as_int, length, byteorder, signed=signed)
+
+    bl.SymbolicBool.to_bytes = _bool_to_bytes
+
     # ---------------------------------------------------------------- 2b
     _orig_from_bytes = core._PATCH_REGISTRATIONS.get(int.from_bytes)
 
@@ -271,7 +279,15 @@ def install_wrappers():
         if cls in core._PATCH_REGISTRATIONS:
             continue
         sig = cls.__dict__.get('dbusSignature')
-        symcls = type('Sym' + cls.__name__, (SymbolicInt,), {'dbusSignature': sig})
+        def _mk_ns(cls):
+            def __ch_pytype__(self):
+                return cls
+
+            def __ch_realize__(self):
+                return cls(SymbolicInt.__ch_realize__(self))
+            return {'dbusSignature': sig, '__ch_pytype__': __ch_pytype__,
+                    '__ch_realize__': __ch_realize__}
+        symcls = type('Sym' + cls.__name__, (SymbolicInt,), _mk_ns(cls))
 
         def make(cls=cls, symcls=symcls):
             def ctor(*a, **kw):
